@@ -339,6 +339,8 @@ func (s *Sim) randomMelt(cfg GenCfg) {
 		part := 1000 + uint64(s.Rng.Int63n(int64(msat-1000)))
 		if !cfg.OddMsat {
 			part = part / 1000 * 1000
+		} else if s.Rng.Intn(4) == 0 {
+			part = 1 + uint64(s.Rng.Intn(999)) // a part of less than one sat
 		}
 		q = s.NewMppMeltQuote(msat, part)
 	} else {
